@@ -509,6 +509,21 @@ def i13(ctx):
             else:
                 why = "tested: %s %s" % (cond[0], role_str(r)[:70])
         ctx.check(ok, "semify-removes-non-class-slots", "a key is removed exactly when slots(app.id) does not contain it", "semify_app_id removes a key of the invocation without `!slots(app.id).contains(key)` for that key and that class (%s): redundant slots stay in returned invocations, or class slots are stripped" % why, where_of(b, c.bb))
+    if not [c for c in rem if c.callee.name == "remove"]:
+        # filter form: app.m = app.m.iter().filter(|(k, _)| slots.contains(k)).collect()
+        okf = False
+        for c in b.calls:
+            if c.callee and c.callee.name in ("filter", "retain") and not b.blocks[c.bb]["cleanup"] and len(c.args) == 2:
+                cl = C._closure_of_role(crate, b.role_of_operand(c.args[1]))
+                if hasattr(cl, "calls"):
+                    r_ = strip_role(cl.role_of_local(0))
+                    if isinstance(r_, tuple) and r_[0] == "call" and r_[1] == "contains" and r_[3]:
+                        setr = strip_role(r_[3][0])
+                        while isinstance(setr, tuple) and setr[0] == "upvar":
+                            setr = strip_role(setr[2])
+                        if isinstance(setr, tuple) and setr[0] == "call" and setr[1] == "slots" and any(role_str(strip_role(a)) == "%s.id" % p for a in setr[3] for p in p_app if p):
+                            okf = True
+        ctx.check(okf, "semify-removes-non-class-slots", "exactly the keys in slots(app.id) are kept", "semify_app_id keeps keys by a test other than `slots(app.id).contains(key)`", where_of(b))
     for l in C.iterator_loops(b):
         ctx.check(C.loop_exhaustive(b, l), "semify-visits-all-keys", "every key of the invocation is examined", "semify_app_id can stop before it has examined every key", where_of(b, l[0]))
 
